@@ -11,6 +11,7 @@ import (
 
 	logging "github.com/ipfs/go-log/v2"
 	"github.com/ipld/go-storethehash/store/types"
+	"github.com/ipld/go-storethehash/store/vhook"
 )
 
 var log = logging.Logger("storethehash/index")
@@ -103,6 +104,7 @@ func (index *Index) garbageCollector(interval, timeLimit time.Duration) {
 // gc searches for and removes stale index files. Returns the number of unused
 // index files that were removed and the number of freeFiles that were found.
 func (index *Index) gc(ctx context.Context, scanFree bool) (int64, int, error) {
+	vhook.At("index.gc.cycle.start")
 	var emptied int
 	var reclaimed int64
 	var err error
@@ -128,6 +130,7 @@ func (index *Index) gc(ctx context.Context, scanFree bool) (int64, int, error) {
 	index.flushLock.Unlock()
 
 	if header.FirstFile == lastFileNum {
+		vhook.At("index.gc.cycle.end")
 		return reclaimed, emptied, nil
 	}
 
@@ -144,6 +147,7 @@ func (index *Index) gc(ctx context.Context, scanFree bool) (int64, int, error) {
 	for fileNum := firstFileNum; fileNum != lastFileNum; {
 		indexPath := indexFileName(index.basePath, fileNum)
 
+		vhook.AtV("index.gc.file.start", fileNum)
 		stale, err := index.reapIndexRecords(ctx, fileNum, indexPath)
 		if err != nil {
 			if err == context.DeadlineExceeded {
@@ -154,15 +158,18 @@ func (index *Index) gc(ctx context.Context, scanFree bool) (int64, int, error) {
 			return 0, 0, err
 		}
 		if stale {
+			vhook.AtV("index.gc.stale", fileNum)
 			index.fileCache.Remove(indexPath)
 
 			// If this is first index file, then update header and remove file.
 			if header.FirstFile == fileNum {
 				header.FirstFile++
+				vhook.At("index.gc.before-header")
 				err = writeHeader(index.headerPath, header)
 				if err != nil {
 					return 0, 0, err
 				}
+				vhook.At("index.gc.before-remove")
 				err = os.Remove(indexPath)
 				if err != nil {
 					return 0, 0, err
@@ -183,6 +190,7 @@ func (index *Index) gc(ctx context.Context, scanFree bool) (int64, int, error) {
 			break
 		}
 	}
+	vhook.At("index.gc.cycle.end")
 	return reclaimed, emptied, nil
 }
 
@@ -216,6 +224,7 @@ func (index *Index) truncateFreeFiles(ctx context.Context) (int64, int, error) {
 		}
 	}
 
+	vhook.At("index.gc.free.scanned")
 	var emptied int
 	var reclaimed int64
 	basePath := index.basePath
@@ -243,9 +252,11 @@ func (index *Index) truncateFreeFiles(ctx context.Context) (int64, int, error) {
 		// If this is first index file, then update header and remove file.
 		if header.FirstFile == fileNum {
 			header.FirstFile++
+			vhook.At("index.gc.free.before-header")
 			if err = writeHeader(index.headerPath, header); err != nil {
 				return 0, 0, err
 			}
+			vhook.At("index.gc.free.before-remove")
 			if err = os.Remove(indexPath); err != nil {
 				return 0, 0, err
 			}
@@ -258,6 +269,7 @@ func (index *Index) truncateFreeFiles(ctx context.Context) (int64, int, error) {
 			continue
 		}
 
+		vhook.AtV("index.gc.free.before-truncate", fileNum)
 		err = os.Truncate(indexPath, 0)
 		if err != nil {
 			log.Errorw("Error truncating index file", "err", err, "file", indexPath)
@@ -323,6 +335,7 @@ func (index *Index) reapIndexRecords(ctx context.Context, fileNum uint32, indexP
 					freeAtSize = size
 				} else {
 					binary.LittleEndian.PutUint32(sizeBuf, freeAtSize|deletedBit)
+					vhook.At("index.gc.reap.before-merge")
 					_, err = file.WriteAt(sizeBuf, freeAt)
 					if err != nil {
 						return false, fmt.Errorf("cannot write to index file %s: %w", file.Name(), err)
@@ -352,7 +365,9 @@ func (index *Index) reapIndexRecords(ctx context.Context, fileNum uint32, indexP
 		}
 
 		bucketPrefix := BucketIndex(binary.LittleEndian.Uint32(data))
+		vhook.At("index.gc.reap.before-busy")
 		inUse, err := index.busy(bucketPrefix, pos+sizePrefixSize, fileNum)
+		vhook.At("index.gc.reap.after-busy")
 		if err != nil {
 			return false, err
 		}
@@ -380,6 +395,7 @@ func (index *Index) reapIndexRecords(ctx context.Context, fileNum uint32, indexP
 			// size. This assumes that the size of an individual index record
 			// will always be less than 2^30.
 			binary.LittleEndian.PutUint32(sizeBuf, freeAtSize|deletedBit)
+			vhook.AtV("index.gc.reap.before-mark", fileNum)
 			if _, err = file.WriteAt(sizeBuf, freeAt); err != nil {
 				return false, fmt.Errorf("cannot write to index file %s: %w", file.Name(), err)
 			}
@@ -394,9 +410,11 @@ func (index *Index) reapIndexRecords(ctx context.Context, fileNum uint32, indexP
 	// If there is a span of free records at end of file, truncate file.
 	if freeAt > busyAt {
 		// End of primary is free.
+		vhook.AtV("index.gc.reap.before-truncate", fileNum)
 		if err = file.Truncate(freeAt); err != nil {
 			return false, fmt.Errorf("failed to truncate index file: %w", err)
 		}
+		vhook.AtV("index.gc.reap.after-truncate", fileNum)
 		log.Debugw("Removed free records from end of index file", "file", fileName, "at", freeAt, "bytes", freeAtSize)
 		if freeAt == 0 {
 			return true, nil
